@@ -1305,6 +1305,68 @@ func (e *Engine) Run(ops []string, res *report.Result) *report.Failure {
 		}
 		shape = append(shape, f[0])
 	}
+	// ---- C13: a history of nothing but reset_peer toxics (toxicity 1) put in place before the
+	// connections: once the toxic has fired, both peers have seen the connection end with a reset
+	// (the unsent data is discarded, not flushed: SO_LINGER 0 on both sockets), not with an
+	// orderly close
+	if wantsProp("C13") && (result == nil || e.OracleOnly) {
+		// (the toxic's clock starts with the first data or end-of-stream in its direction)
+		resetOnly, any := true, false
+		dirs := map[string]bool{}   // proxy/direction with a reset_peer toxic
+		primed := map[string]bool{} // connections on which data was sent in such a direction
+		for _, op := range ops {
+			g := strings.Fields(op)
+			switch g[0] {
+			case "upstream", "create", "connect":
+			case "sendnw":
+				if c := w.conns[g[1]]; c != nil && len(g) >= 3 && dirs[c.proxy+"/"+g[2]] {
+					primed[g[1]] = true
+					any = true
+				}
+			case "tadd":
+				if len(g) >= 9 && g[4] == "reset_peer" && g[8] == "1" {
+					dirs[g[1]+"/"+g[2]] = true
+				} else {
+					resetOnly = false
+				}
+			default:
+				resetOnly = false
+			}
+		}
+		if resetOnly && any {
+			deadline := time.Now().Add(2 * time.Second)
+			for {
+				bad := ""
+				for _, n := range w.corder {
+					c := w.conns[n]
+					if !primed[n] {
+						continue
+					}
+					for who, pr := range map[string]*peer{"client": c.client, "server": c.server} {
+						if pr == nil || pr.conn == nil {
+							continue
+						}
+						pr.mu.Lock()
+						if !pr.ended {
+							bad = n + " (" + who + "): still open"
+						} else if !pr.rst {
+							bad = n + " (" + who + "): orderly close"
+						}
+						pr.mu.Unlock()
+					}
+				}
+				if bad == "" {
+					break
+				}
+				if time.Now().After(deadline) {
+					result = fail(len(ops)-1, "oracle", "C13", "both peers see a reset", bad,
+						"a connection under a reset_peer toxic did not end with a TCP reset at both peers", "e6:C13:no-reset")
+					break
+				}
+				time.Sleep(5 * time.Millisecond)
+			}
+		}
+	}
 	// ---- end of episode: everything is torn down; nothing may be left behind (C15, C20)
 	if result == nil || e.OracleOnly {
 		for _, c := range w.conns {
